@@ -96,6 +96,9 @@ theorem eq_of_nodup_map {α β : Type} (f : α → β) {l : List α} (h : (l.map
 theorem TS.step_wf' (s : TS) (op : TSOp) (hs : s.WF') : (s.step op).1.WF' := by
   obtain ⟨h1, h2, h3, h4⟩ := hs
   cases op with
+  | constructFail c a =>
+    simp only [TS.step]
+    cases hl : lookup c s.inst <;> exact ⟨h1, h2, h3, h4⟩
   | construct c a =>
     simp only [TS.step]
     cases hl : lookup c s.inst with
@@ -157,6 +160,9 @@ theorem TS.step_keeps_lookup (s : TS) (c i : Nat) (op : TSOp)
     (h1 : op ≠ .clear (some c)) (h2 : op ≠ .clear none) (hl : lookup c s.inst = some i) :
     lookup c (s.step op).1.inst = some i := by
   cases op with
+  | constructFail c2 a =>
+    simp only [TS.step]
+    cases hl2 : lookup c2 s.inst <;> exact hl
   | construct c2 a =>
     simp only [TS.step]
     cases hl2 : lookup c2 s.inst with
@@ -203,6 +209,9 @@ theorem TS.step_mono (s : TS) (op : TSOp) :
     s.next ≤ (s.step op).1.next ∧
     ∃ extra, (s.step op).1.inits = s.inits ++ extra ∧ ∀ e ∈ extra, s.next ≤ e.1 := by
   cases op with
+  | constructFail c a =>
+    simp only [TS.step]
+    cases hl : lookup c s.inst <;> exact ⟨Nat.le_refl _, [], by simp, by simp⟩
   | construct c a =>
     simp only [TS.step]
     cases hl : lookup c s.inst with
@@ -424,6 +433,9 @@ theorem SS.wf'_filter (cfg : SSCfg) (s : SS) (m : Nat) (q : SKey × Nat → Bool
 theorem SS.step_wf' (cfg : SSCfg) (s : SS) (op : SSOp) (hs : SS.WF' cfg s) :
     SS.WF' cfg (s.step cfg op).1 := by
   cases op with
+  | constructFail c a =>
+    simp only [SS.step]
+    split <;> exact hs
   | construct c a =>
     cases hl : slookup (c, cfg.keyOf (cfg.mapOf c) a) (s.maps (cfg.mapOf c)) with
     | some i => rw [SS.step_construct_hit cfg s c a i hl]; exact hs
